@@ -15,6 +15,7 @@ package nsqd
 //@ pred wfPQ(pq inFlightPqueue) := bidx(pq, len(pq)) && heap(pq, len(pq)) && cap(pq) >= 1
 
 //@ func (pq inFlightPqueue) Swap(i, j int)
+//@   keeps r4BExitTests, r4BExitTestChan, r4BExitTestSaw, r4BExitTestHeld
 //@   props C02 C04 C08
 //@   requires 0 <= i && i < len(pq) && 0 <= j && j < len(pq)
 //@   requires pq[i] != nil && pq[j] != nil && (i != j ==> pq[i] != pq[j])
@@ -26,6 +27,7 @@ package nsqd
 // up(j) restores heap order on the first m slots (ghost bound: Remove calls it while the removed
 // element still occupies the last slot) when the only violated edge is the one into j.
 //@ func (pq *inFlightPqueue) up(j int)
+//@   keeps r4BExitTests, r4BExitTestChan, r4BExitTestSaw, r4BExitTestHeld
 //@   props C02 C04 C08
 //@   ghostparam gm *Message
 //@   ghostparam m int
@@ -48,6 +50,7 @@ package nsqd
 //@     decreases j
 
 //@ func (pq *inFlightPqueue) down(i, n int)
+//@   keeps r4BExitTests, r4BExitTestChan, r4BExitTestSaw, r4BExitTestHeld
 //@   props C02 C04 C08
 //@   ghostparam gm *Message
 //@   requires pq != nil && 0 <= i && i <= n && n <= len(*pq) && bidx(*pq, len(*pq))
@@ -88,6 +91,7 @@ package nsqd
 //@   modifies *pq, elems(*pq), Message.index
 
 //@ func (pq *inFlightPqueue) Pop() *Message
+//@   keeps r4BExitTests, r4BExitTestChan, r4BExitTestSaw, r4BExitTestHeld
 //@   props C02 C04 C08
 //@   ghostparam gm *Message
 //@   requires pq != nil && wfPQ(*pq) && len(*pq) >= 1
@@ -98,6 +102,7 @@ package nsqd
 //@   modifies *pq, elems(*pq), Message.index
 
 //@ func (pq *inFlightPqueue) Remove(i int) *Message
+//@   keeps r4BExitTests, r4BExitTestChan, r4BExitTestSaw, r4BExitTestHeld
 //@   props C02 C04 C08
 //@   ghostparam gm *Message
 //@   inst up.m len(old(*pq)) - 1
@@ -111,6 +116,7 @@ package nsqd
 // PeekAndShift never hands out an entry whose deadline is after max (never early), and hands out
 // the root or nothing.
 //@ func (pq *inFlightPqueue) PeekAndShift(max int64) (*Message, int64)
+//@   keeps r4BExitTests, r4BExitTestChan, r4BExitTestSaw, r4BExitTestHeld
 //@   props C02 C04 C08
 //@   ghostparam gm *Message
 //@   requires pq != nil && wfPQ(*pq)
